@@ -212,7 +212,7 @@ fn default_runs(property: &str, tier: oracle::Tier) -> u64 {
         ("C07", oracle::Tier::Thorough) => 1_000_000,
         ("C08", oracle::Tier::Quick) => 16_000,
         ("C08", oracle::Tier::Thorough) => 400_000,
-        ("C17", oracle::Tier::Quick) => 9_000,
+        ("C17", oracle::Tier::Quick) => 8_000,
         ("C17", oracle::Tier::Thorough) => 150_000,
         _ => 1000,
     }
